@@ -69,6 +69,27 @@ theorem group_new_iff_unseen_or_expired (cfg : Cfg α κ β) (hrefl : ∀ k, cfg
     rw [e']
     exact ⟨⟨fun _ => ⟨hl, hsm⟩, fun _ => this⟩, Or.inl this⟩
 
+/-- **new_group_announced.** In the situation where `group_new_iff_unseen_or_expired` creates a group, and
+`duration_mapper` does not raise and the outer subscriber is not stopped, the outer subscriber is handed the new
+group (index = number of groups so far, key `k`) during that very step. -/
+theorem new_group_announced (cfg : Cfg α κ β) (hrefl : ∀ k, cfg.keyEq k k = true)
+    (evs : List (Ev α)) (x : α) (k : κ) (hk : cfg.keyMapper x = .ok k) :
+    let s := run cfg (init : St κ β) evs
+    let s' := step cfg s (.src (.next x))
+    s.srcStopped = false → (¬ ∃ j, LiveFor cfg s k j) →
+    cfg.subjMapper s.groups.length = .ok () → cfg.durMapper s.groups.length = .ok () → s.outStopped = false →
+      Eff.outer (.next (s.groups.length, k)) ∈ s'.out := by
+  intro s s' hs hl hsm hdm ho
+  have hi := inv_reach hrefl (cfg := cfg) (β := β) evs
+  have hs' : s' = srcNext cfg s x := step_src_next cfg s x hs
+  rw [hs']
+  rcases srcNext_cases cfg s x k hk with ⟨p, hf, _⟩ | ⟨_, ⟨e, h, _⟩ | ⟨_, ⟨e, h, _⟩ | ⟨_, e'⟩⟩⟩
+  · exact absurd ⟨p.2, find_some_live hi.wf k p hf⟩ hl
+  · rw [hsm] at h; cases h
+  · rw [hdm] at h; cases h
+  · rw [e']
+    exact (OutExt_pushElem cfg _ _ x).mem (announce_mem cfg (addGroup s k) s.groups.length k ho)
+
 /-- **group_routes_to_key.** An arriving element `x` (source subscribed) with key `k` and mapped value `v`
 is appended (`next v`, at the end = arrival order) to the writer log of exactly one group `g`; that group is
 the unique live group whose key equals `k` (the existing one, or the one created for this element); no other
